@@ -151,6 +151,9 @@ func (s *storeRun) open() {
 // apply performs one captured write on the store under test and on the model.
 func (s *storeRun) apply(op *storeOp) {
 	progress.Add(1)
+	if abortRun.Load() {
+		return // wall-clock guard: the run is being abandoned
+	}
 	m := s.model
 	var err error
 	switch op.kind {
